@@ -3,29 +3,148 @@
 -/
 import Rtcp.Spec.All
 import Rtcp.Proofs.ReadLemmas
+import Rtcp.Proofs.ParsersFraming
+import Rtcp.Proofs.SdesScanAux
 
 namespace Rtcp.Proofs
 open Rtcp Rtcp.Impl Rtcp.Spec
+
+namespace SdesAux
+open Rtcp.Proofs.Read
+
+/-- on a packet that is not well framed the parser returns the error of the framing check -/
+theorem sdes_parse_unframed (bs : Bytes) (hf : ¬ WellFramed 4 202 bs) :
+    ∃ e, Sdes.parse bs = .err e ∧ checkPacket 4 202 bs = .err e := by
+  cases hc : checkPacket 4 202 bs with
+  | ok u => exact absurd ((checkPacket_ok_iff 4 202 bs (by omega)).1 hc) hf
+  | err e => exact ⟨e, by simp [Sdes.parse, hc], rfl⟩
+  | panic => exact absurd hc (checkPacket_no_panic 4 202 bs (by omega))
+
+/-- on a well-framed packet: the padding check, then the chunk loop -/
+theorem sdes_parse_framed (bs : Bytes) (hf : WellFramed 4 202 bs) :
+    Sdes.parse bs =
+      if bs.length < 4 + padLen bs then .err (.truncated (4 + padLen bs) bs.length)
+      else (if bs.length - padLen bs > 4 then Sdes.chunkLoop bs (bs.length - padLen bs) 4 []
+            else .ok []) >>= fun cs => .ok ⟨bs, cs⟩ := by
+  have hc := (checkPacket_ok_iff 4 202 bs (by omega)).2 hf
+  obtain ⟨_, h4, _, _, hl, _⟩ := (wellFramed_iff 4 202 bs).1 hf
+  unfold Sdes.parse
+  rw [hc, parsePadding_ok bs h4 hl]
+  simp only [R.ok_bind, R.pure_eq]
+  unfold padLen
+  split
+  · rfl
+  · split <;> simp
+
+theorem sdes_parse_sim (bs : Bytes) (hf : WellFramed 4 202 bs) (hp : 4 + padLen bs ≤ bs.length) :
+    (∀ cs, refTok (sdesBody bs) = some cs →
+      ∃ cks, Sdes.parse bs = .ok ⟨bs, cks⟩ ∧ cks.map chunkAsRef = cs ∧
+        ∀ c ∈ cks, ∀ it ∈ c.items, ItemOk bs it) ∧
+    (refTok (sdesBody bs) = none → ∃ er, Sdes.parse bs = .err er ∧ ScanErr er) := by
+  rw [sdes_parse_framed bs hf]
+  have hlt : ¬ bs.length < 4 + padLen bs := by omega
+  simp only [hlt, if_false, refTok, sdesBody]
+  have hlen := range_length bs 4 (bs.length - padLen bs) (by omega)
+  rw [hlen]
+  by_cases hgt : bs.length - padLen bs > 4
+  · simp only [hgt, if_true]
+    have hsim := chunkLoop_sim bs (bs.length - padLen bs) 4 [] (by omega) (by omega)
+      (bs.length - padLen bs - 4) (Nat.le_refl _)
+    constructor
+    · intro cs h
+      obtain ⟨cks, hok, hmap, hall⟩ := hsim.1 cs h
+      rw [hok]
+      exact ⟨cks, by simp, hmap, hall⟩
+    · intro h
+      obtain ⟨er, herr, hse⟩ := hsim.2 h
+      rw [herr]
+      exact ⟨er, rfl, hse⟩
+  · have h0 : bs.length - padLen bs - 4 = 0 := by omega
+    have hnil : range bs 4 (bs.length - padLen bs) = [] := by
+      rw [h0] at hlen; simpa using hlen
+    simp only [hgt, if_false, h0, hnil, refChunks, R.ok_bind]
+    constructor
+    · intro cs h
+      cases h
+      exact ⟨[], rfl, rfl, by simp⟩
+    · intro h; cases h
+
+end SdesAux
+open SdesAux
 
 /-- accepted ⇒ framed, padding within the packet, and the chunks are the reference tokenisation -/
 theorem sdes_parse_accepts (bs : Bytes) (v : Sdes) (h : Sdes.parse bs = .ok v) :
     v.data = bs ∧ WellFramed 4 202 bs ∧ 4 + padLen bs ≤ bs.length ∧
     refTok (sdesBody bs) = some (v.chunks.map chunkAsRef) ∧
     (∀ c ∈ v.chunks, ∀ it ∈ c.items, ItemOk bs it) := by
-  sorry
+  by_cases hf : WellFramed 4 202 bs
+  · by_cases hp : 4 + padLen bs ≤ bs.length
+    · have hsim := sdes_parse_sim bs hf hp
+      cases hr : refTok (sdesBody bs) with
+      | none =>
+        obtain ⟨er, herr, _⟩ := hsim.2 hr
+        rw [herr] at h; cases h
+      | some cs =>
+        obtain ⟨cks, hok, hmap, hall⟩ := hsim.1 cs hr
+        rw [hok] at h; cases h
+        exact ⟨rfl, hf, hp, by rw [hmap], hall⟩
+    · rw [sdes_parse_framed bs hf] at h
+      have : bs.length < 4 + padLen bs := by omega
+      simp [this] at h
+  · obtain ⟨e, he, _⟩ := sdes_parse_unframed bs hf
+    rw [he] at h; cases h
 
 /-- rejected ⇒ not framed, or the padding overruns, or the reference tokeniser rejects too -/
 theorem sdes_parse_rejects (bs : Bytes) (e : ParseError) (h : Sdes.parse bs = .err e) :
     ¬ (WellFramed 4 202 bs ∧ 4 + padLen bs ≤ bs.length ∧ (refTok (sdesBody bs)).isSome) := by
-  sorry
+  rintro ⟨hf, hp, hs⟩
+  have hsim := sdes_parse_sim bs hf hp
+  cases hr : refTok (sdesBody bs) with
+  | none => rw [hr] at hs; cases hs
+  | some cs =>
+    obtain ⟨cks, hok, _⟩ := hsim.1 cs hr
+    rw [hok] at h; cases h
 
 theorem sdes_parse_no_panic (bs : Bytes) : Sdes.parse bs ≠ .panic := by
-  sorry
+  intro h
+  by_cases hf : WellFramed 4 202 bs
+  · by_cases hp : 4 + padLen bs ≤ bs.length
+    · have hsim := sdes_parse_sim bs hf hp
+      cases hr : refTok (sdesBody bs) with
+      | none =>
+        obtain ⟨er, herr, _⟩ := hsim.2 hr
+        rw [herr] at h; cases h
+      | some cs =>
+        obtain ⟨cks, hok, _⟩ := hsim.1 cs hr
+        rw [hok] at h; cases h
+    · rw [sdes_parse_framed bs hf] at h
+      have : bs.length < 4 + padLen bs := by omega
+      simp [this] at h
+  · obtain ⟨e, he, _⟩ := sdes_parse_unframed bs hf
+    rw [he] at h; cases h
 
 /-- C18: the errors of the SDES parser are truthful -/
 theorem sdes_err_truthful (bs : Bytes) (e : ParseError) (h : Sdes.parse bs = .err e) :
     ErrorTruthful bs 202 e := by
-  sorry
+  by_cases hf : WellFramed 4 202 bs
+  · by_cases hp : 4 + padLen bs ≤ bs.length
+    · have hsim := sdes_parse_sim bs hf hp
+      cases hr : refTok (sdesBody bs) with
+      | none =>
+        obtain ⟨er, herr, hse⟩ := hsim.2 hr
+        rw [herr] at h; cases h
+        exact hse.truthful bs 202
+      | some cs =>
+        obtain ⟨cks, hok, _⟩ := hsim.1 cs hr
+        rw [hok] at h; cases h
+    · rw [sdes_parse_framed bs hf] at h
+      have hlt : bs.length < 4 + padLen bs := by omega
+      simp only [hlt, if_true] at h
+      cases h
+      exact hlt
+  · obtain ⟨e', he, hc⟩ := sdes_parse_unframed bs hf
+    rw [he] at h; cases h
+    exact checkPacket_err_truthful 4 202 bs (by omega) e hc
 
 /- every accessor of a parsed item returns normally, with exactly the bytes on the wire; PRIV
     items split into prefix and value as the reference says -/
@@ -40,14 +159,86 @@ theorem item_accessors {ε : Type} (bs : Bytes) (it : SdesItem) (h : ItemOk bs i
       (it.privPrefix : R ε Slice) = .ok ⟨it.off + 3, (it.data.drop 3).take (u8At it.data 2)⟩ ∧
       (it.value : R ε Slice) = .ok ⟨it.off + 3 + u8At it.data 2, it.data.drop (3 + u8At it.data 2)⟩ ∧
       (itemAsRef it).privSplit = some ((it.data.drop 3).take (u8At it.data 2), it.data.drop (3 + u8At it.data 2))) := by
-  sorry
+  obtain ⟨off, data⟩ := it
+  obtain ⟨h2, _, _, h1, h8⟩ := h
+  simp only at h2 h1 h8 ⊢
+  match data, h2 with
+  | t :: l :: rest, _ =>
+    simp only [u8At, List.getD_cons_zero, List.getD_cons_succ, List.length_cons] at h1 h8 ⊢
+    have ht8 : t.toNat = 8 ↔ t = 8 := ⟨fun h => UInt8.toNat_inj.mp h, fun h => by rw [h]; rfl⟩
+    refine ⟨?_, ?_, ?_, ?_⟩
+    · simp [SdesItem.type, idx]
+    · simp only [SdesItem.length, idx, List.getElem?_cons_succ, List.getElem?_cons_zero, R.ok_bind,
+        R.pure_eq]
+      congr 1
+      omega
+    · intro hne
+      have hne' : ¬ t = 8 := fun h => hne (ht8.2 h)
+      simp [SdesItem.value, SdesItem.type, idx, SdesItem.PRIV, hne', sliceS]
+    · intro he
+      have he' : t = 8 := ht8.1 he
+      subst he'
+      obtain ⟨h3, hpl⟩ := h8 rfl
+      match rest, h3 with
+      | pl :: r, _ =>
+        simp only [List.getD_cons_zero, List.length_cons] at hpl h1 ⊢
+        have hle : pl.toNat ≤ r.length := by omega
+        refine ⟨?_, ?_, ?_, ?_⟩
+        · simp [SdesItem.privPrefixLen, SdesItem.type, idx, SdesItem.PRIV]
+        · simp only [SdesItem.privPrefix, SdesItem.privPrefixLen, SdesItem.type, idx, SdesItem.PRIV,
+            List.getElem?_cons_zero, List.getElem?_cons_succ, R.ok_bind, bne_self_eq_false,
+            Bool.false_eq_true, if_false, sliceS, List.length_cons]
+          have : 3 ≤ 3 + pl.toNat ∧ 3 + pl.toNat ≤ r.length + 1 + 1 + 1 := by omega
+          simp only [this, and_self, if_true]
+          rw [show 3 + pl.toNat = pl.toNat + 1 + 1 + 1 by omega]
+          simp
+        · simp only [SdesItem.value, SdesItem.privValueOffset, SdesItem.privPrefixLen, SdesItem.type,
+            idx, SdesItem.PRIV, List.getElem?_cons_zero, List.getElem?_cons_succ, R.ok_bind,
+            bne_self_eq_false, beq_self_eq_true, Bool.false_eq_true, if_false, if_true, sliceS,
+            List.length_cons, R.pure_eq]
+          have : pl.toNat + 3 ≤ r.length + 1 + 1 + 1 := by omega
+          simp only [this, Nat.le_refl, and_self, if_true]
+          rw [show 3 + pl.toNat = pl.toNat + 1 + 1 + 1 by omega,
+            show pl.toNat + 3 = pl.toNat + 1 + 1 + 1 by omega]
+          simp
+          omega
+        · simp only [itemAsRef, RefItem.privSplit, List.drop_succ_cons, List.drop_zero, hle, if_true]
+          rw [show 3 + pl.toNat = pl.toNat + 1 + 1 + 1 by omega]
+          simp
+
+theorem mapM_length_loop {ε : Type} (bs : Bytes) (items : List SdesItem)
+    (h : ∀ it ∈ items, ItemOk bs it) (acc : List Nat) :
+    (List.mapM.loop (fun it : SdesItem => (it.length : R ε Nat)) items acc) =
+      .ok (acc.reverse ++ items.map (fun it => it.data.length - 2)) := by
+  induction items generalizing acc with
+  | nil => simp [List.mapM.loop]
+  | cons it rest ih =>
+    have hl := (item_accessors (ε := ε) bs it (h it (by simp))).2.1
+    simp only [List.mapM.loop, hl, R.ok_bind]
+    rw [ih (fun it' h' => h it' (by simp [h']))]
+    simp
 
 /- each chunk reports its own encoded length: SSRC, items with their two header octets, the
     terminator, rounded up to 32 bits -/
 
 theorem chunk_length {ε : Type} (bs : Bytes) (c : SdesChunk) (h : ∀ it ∈ c.items, ItemOk bs it) :
     (c.length : R ε Nat) = .ok (pad4 (4 + (c.items.map (·.data.length)).sum + 1)) := by
-  sorry
+  unfold SdesChunk.length List.mapM
+  rw [mapM_length_loop bs c.items h []]
+  simp only [List.reverse_nil, List.nil_append, R.ok_bind, R.pure_eq, List.map_map]
+  congr 3
+  have : ∀ items : List SdesItem, (∀ it ∈ items, ItemOk bs it) →
+      (items.map ((fun x => 2 + x) ∘ fun it => it.data.length - 2)).sum =
+        (items.map (·.data.length)).sum := by
+    intro items hi
+    induction items with
+    | nil => rfl
+    | cons it rest ih =>
+      have := (hi it (by simp)).1
+      simp only [List.map_cons, List.sum_cons, Function.comp]
+      rw [← ih (fun it' h' => hi it' (by simp [h']))]
+      omega
+  rw [this c.items h]
 
 /- C03: every SDES packet the builder accepts (item types ≠ 0) is accepted by the parser and
     yields exactly the configured chunks, items (type, value, PRIV prefix) and padding -/
